@@ -971,6 +971,10 @@ def c17(ck):
     strsize = header_strsize(ck)
     ck.extra["POLYSEED_STR_SIZE"] = strsize
     ck.model("TheoremsLists.tla", lists_cfg(ck, strsize))
+    # non-vacuity: the bound must fail for the size the pinned release shipped with
+    neg = ck.model("TheoremsLists.tla", lists_cfg(ck, 360), must_hold=False)
+    if neg["ok"]:
+        ck.infra.append("vacuous: the phrase-length lemma holds even for a 360-byte buffer")
     # extremal and near-extremal witnesses, under AddressSanitizer
     maxima = {}
     for lid in LANG_IDS:
@@ -1801,7 +1805,11 @@ def thread_script(rng, ncalls, mask):
 def c20(ck):
     rng = Rng(ck.seed)
     quick = ck.tier == "quick"
-    ck.model("PolyseedThreads.tla", "PolyseedThreads.cfg")
+    ck.model("PolyseedThreads.tla", "PolyseedThreads.cfg" if quick else "PolyseedThreads_thorough.cfg")
+    # non-vacuity of the race invariant: with configuration calls allowed concurrently it must be violated
+    neg = ck.model("PolyseedThreads.tla", "PolyseedThreads_negative.cfg", must_hold=False)
+    if neg["ok"]:
+        ck.infra.append("vacuous: NoRace holds even with concurrent configuration calls")
     runs = [("mt_so", 4, 40), ("mt_tsan", 4, 25)] if quick else [("mt_so", 16, 400), ("mt_tsan", 16, 150), ("mt_so", 8, 200), ("mt_tsan", 8, 100)]
     import json
     tsan_reports = 0
@@ -1978,6 +1986,10 @@ def c16(ck):
     rng = Rng(ck.seed)
     # every exit path of every operation, at design level: no temporary holds secret-derived data at return
     ck.model("PolyseedImpl.tla", "PolyseedImpl.cfg", heap="16g", timeout=3000)
+    # non-vacuity: the same model with the index array of the language scan left unwiped must violate ReturnsClean
+    neg = ck.model("PolyseedImpl.tla", "PolyseedImpl_negative.cfg", must_hold=False, heap="8g")
+    if neg["ok"]:
+        ck.infra.append("vacuous: ReturnsClean holds even when a tainted temporary is never wiped")
     variants = ["plain", "O0"] if ck.tier == "quick" else ["plain", "O0", "O3", "dbg"]
     rounds = 2 if ck.tier == "quick" else 60
     for v in variants:
